@@ -209,6 +209,25 @@ class CallMixin:
                 raise Unsupported(f"{o.kind} escaping function {fi.key}", node)
         return outs
 
+    def class_file(self, name: str) -> Optional[str]:
+        import os
+        import re
+
+        if not hasattr(CallMixin, "_class_files"):
+            m: Dict[str, str] = {}
+            root = os.path.join(front.REPO_ROOT, "pymarkdown")
+            for dp, _, fns in os.walk(root):
+                for fn in sorted(fns):
+                    if fn.endswith(".py"):
+                        try:
+                            src = open(os.path.join(dp, fn), "rt", encoding="utf-8").read()
+                        except OSError:
+                            continue
+                        for mm in re.finditer(r"^class\s+(\w+)", src, re.M):
+                            m.setdefault(mm.group(1), os.path.relpath(os.path.join(dp, fn), front.REPO_ROOT))
+            CallMixin._class_files = m
+        return CallMixin._class_files.get(name)
+
     def overriding_subclasses(self, fi: front.FuncInfo) -> List[front.FuncInfo]:
         """Methods in (transitive) subclasses anywhere in pymarkdown/ that override fi."""
         self.has_override(fi)  # builds the index
